@@ -68,118 +68,14 @@ def run(ctx):
     if any(not _is_documented_writer(prog, prog.funcs.get(f"{m.name}.write_input")) if prog.funcs.get(f"{m.name}.write_input") else True for m in prog.input_modules().values()):
         return  # the rules below are stated per program: decided once the registry holds programs only
     base = input_base(prog)
-    fh, data, template, atom_line, user = base.posparams[:5]
 
-    # locate `fields` (the dict formatted into the template)
-    fmt_calls = [n for n in base.own_nodes() if isinstance(n, ast.Call) and isinstance(n.func, ast.Attribute) and n.func.attr == "format" and isinstance(n.func.value, ast.Name) and n.func.value.id == template]
-    if len(fmt_calls) != 1 or not fmt_calls[0].keywords or fmt_calls[0].keywords[0].arg is not None:
-        raise AnalysisError("write_input_base: cannot find template.format(**fields)")
-    fields = src_of(fmt_calls[0].keywords[0].value)
-    stores = {}
-    order = []
-    for st in base.body:
-        if isinstance(st, ast.Assign) and len(st.targets) == 1 and isinstance(st.targets[0], ast.Subscript) and src_of(st.targets[0].value) == fields and isinstance(st.targets[0].slice, ast.Constant):
-            stores[st.targets[0].slice.value] = st
-            order.append(("store", st.targets[0].slice.value, st))
-        elif isinstance(st, ast.Expr) and isinstance(st.value, ast.Call) and src_of(st.value.func) == f"{fields}.update":
-            order.append(("update", src_of(st.value.args[0]) if st.value.args else "", st))
-        elif isinstance(st, ast.Expr) and isinstance(st.value, ast.Call) and any(c is fmt_calls[0] for c in ast.walk(st.value)):
-            order.append(("print", "", st))
-
-    # ------------------------------------------------------------------ R1
+    # ------------------------------------------------------------------ R1 / R2 (evaluated; no statement shape is matched)
     ctx.rule("R1", "exactly one geometry line per atom, in order", "atoms are missing, duplicated or re-ordered in the generated input")
-    gst = stores.get("geometry")
-    if gst is None:
-        ctx.violate("R1", "no `geometry` field is generated", base, base.node, construct="geometry field")
-    else:
-        v = gst.value
-        okjoin = isinstance(v, ast.Call) and isinstance(v.func, ast.Attribute) and v.func.attr == "join" and isinstance(v.func.value, ast.Constant) and v.func.value.value == "\n" and len(v.args) == 1
-        comp = deref(base, v.args[0]) if okjoin else None
-        okcomp = False
-        if isinstance(comp, (ast.ListComp, ast.GeneratorExp)) and len(comp.generators) == 1:
-            g = comp.generators[0]
-            it = g.iter
-            okrange = isinstance(it, ast.Call) and getattr(it.func, "id", "") == "range" and len(it.args) == 1 and src_of(it.args[0]) == f"{data}.natom"
-            elt = comp.elt
-            okelt = isinstance(elt, ast.Call) and isinstance(elt.func, ast.Name) and elt.func.id == atom_line and len(elt.args) == 2 and src_of(elt.args[0]) == data and isinstance(g.target, ast.Name) and src_of(elt.args[1]) == g.target.id
-            okcomp = okrange and okelt and not g.ifs
-        if okjoin and okcomp:
-            ctx.ok("R1", f"geometry = '\\n'.join({atom_line}({data}, i) for i in range({data}.natom))", f"{base.module.relpath}:{gst.lineno}")
-        else:
-            ctx.violate("R1", "the geometry is not the newline-joined, unfiltered sequence atom_line(data, i) for i in range(data.natom)", base, gst)
-        kinds = [k for k, _, _ in order]
-        gi = [i for i, (k, n, _) in enumerate(order) if k == "store" and n == "geometry"]
-        ui = [i for i, (k, n, _) in enumerate(order) if k == "update"]
-        pi = [i for i, (k, n, _) in enumerate(order) if k == "print"]
-        if gi and pi and gi[0] < pi[0] and (not ui or ui[-1] < gi[0]):
-            ctx.ok("R1", "geometry is stored after the user fields and before rendering (a user field cannot replace it)", f"{base.module.relpath}:{gst.lineno}")
-        else:
-            ctx.violate("R1", "the geometry field is not stored after the user fields and before the template is rendered", base, gst, construct="geometry store order")
-
-    # ------------------------------------------------------------------ R2
     ctx.rule("R2", "default atom lines: element symbol and coordinates in angstrom, in x y z order", "wrong element, wrong unit or permuted coordinates in the generated input")
-    nprog = 0
-    for short, m in prog.input_modules().items():
-        nprog += 1
-        wi = prog.func(f"{m.name}.write_input")
-        # default atom_line function: assigned under `if atom_line is None`
-        dal = None
-        for st in walk_stmts(wi.body):
-            if isinstance(st, ast.If) and src_of(st.test) == "atom_line is None":
-                for s2 in st.body:
-                    if isinstance(s2, ast.Assign) and src_of(s2.targets[0]) == "atom_line" and isinstance(s2.value, ast.Name):
-                        r = prog.resolve_expr(wi, wi.module, s2.value)
-                        if r and r[0] == "func":
-                            dal = r[1]
-        if dal is None:
-            ctx.violate("R2", f"{short}: no default atom_line under `if atom_line is None`", wi, wi.node, construct="default atom_line")
-            continue
-        d, i = dal.posparams[:2]
-        rets = [n for n in dal.own_nodes() if isinstance(n, ast.Return)]
-        if len(rets) != 1 or not isinstance(rets[0].value, ast.JoinedStr):
-            ctx.violate("R2", f"{short}: default atom line is not a single f-string", dal, dal.node, construct="atom line f-string")
-            continue
-        fvals = [deref(dal, x.value) for x in rets[0].value.values if isinstance(x, ast.FormattedValue)]
-        specs = [src_of(x.format_spec) if x.format_spec is not None else "" for x in rets[0].value.values if isinstance(x, ast.FormattedValue)]
-        if len(fvals) != 4:
-            ctx.violate("R2", f"{short}: default atom line prints {len(fvals)} values, expected symbol + 3 coordinates", dal, rets[0])
-            continue
-        sym = fvals[0]
-        oksym = isinstance(sym, ast.Subscript) and isinstance(sym.value, ast.Name) and src_of(sym.slice) == f"{d}.atnums[{i}]"
-        if oksym:
-            r = prog.resolve_expr(dal, dal.module, sym.value)
-            oksym = bool(r and r[0] == "global" and r[1].name == "iodata.periodic" and r[2] == "num2sym")
-        if oksym:
-            ctx.ok("R2", f"{short}: symbol = num2sym[data.atnums[i]]", f"{dal.module.relpath}:{rets[0].lineno}")
-        else:
-            ctx.violate("R2", f"{short}: the element symbol is `{src_of(sym)}`, not num2sym[data.atnums[i]]", dal, rets[0])
-        coords = []
-        unit_ok = True
-        for k, fv in enumerate(fvals[1:]):
-            # atcoord[k] where atcoord = data.atcoords[i] / angstrom   (or the expression inline)
-            if isinstance(fv, ast.Subscript) and isinstance(fv.slice, ast.Constant):
-                coords.append(fv.slice.value)
-                basev = deref(dal, fv.value)
-            else:
-                coords.append(None)
-                basev = fv
-            good = isinstance(basev, ast.BinOp) and isinstance(basev.op, ast.Div) and src_of(basev.left) == f"{d}.atcoords[{i}]"
-            if good:
-                r = prog.resolve_expr(dal, dal.module, basev.right)
-                good = bool(r and r[0] == "global" and r[1].name == "iodata.utils" and r[2] == "angstrom")
-            unit_ok = unit_ok and good
-        if coords == [0, 1, 2]:
-            ctx.ok("R2", f"{short}: coordinates printed in x, y, z order", f"{dal.module.relpath}:{rets[0].lineno}")
-        else:
-            ctx.violate("R2", f"{short}: coordinate components are printed in order {coords}", dal, rets[0])
-        if unit_ok:
-            ctx.ok("R2", f"{short}: coordinates are data.atcoords[i] / angstrom", f"{dal.module.relpath}:{rets[0].lineno}")
-        else:
-            ctx.violate("R2", f"{short}: coordinates are not data.atcoords[i] / angstrom (wrong unit factor or direction)", dal, rets[0], construct="atom line unit")
-        for sp in specs[1:]:
-            if "," in sp or "_" in sp:
-                ctx.violate("R2", f"{short}: coordinate format `{sp}` uses a grouping option", dal, rets[0], construct=f"format spec {sp}")
-    ctx.floor("R2", nprog, 2, "input modules")
+    from .c19_semantics import check_default_atom_lines, check_geometry_lines
+
+    check_geometry_lines(ctx, "R1")
+    check_default_atom_lines(ctx, "R2")
 
     # ------------------------------------------------------------------ R3 / R4 / R5
     # decided by evaluating the two small functions that build the field dictionary (the program's write_input and the
@@ -199,13 +95,7 @@ def run(ctx):
     from .c19_semantics import check_rendering
 
     check_rendering(ctx, "R8")
-    # the merged dictionary is what gets formatted, after the geometry was added
-    pr = [i for i, (k, n, _) in enumerate(order) if k == "print"]
-    up = [i for i, (k, n, _) in enumerate(order) if k == "update" and n == user]
-    if len(pr) == 1 and len(up) == 1 and up[0] < pr[0]:
-        ctx.ok("R4", f"template.format(**{fields}) is rendered after the user fields were merged", f"{base.module.relpath}:{order[pr[0]][2].lineno}")
-    else:
-        ctx.violate("R4", "the template is not rendered from the merged field dictionary", base, base.node, construct="render after merge")
+    # (that the merged dictionary is what gets formatted is part of the evaluated rendering, R8)
 
     # ------------------------------------------------------------------ R6
     ctx.rule("R6", "unknown program -> FileFormatError; any rendering failure -> WriteInputError", "a raw exception (AttributeError of a template field, an error of a user callback) escapes write_input")
